@@ -161,7 +161,7 @@ def run(ctx):
         "kill points are the persistent-state saves and the end of a prune; kills inside os-level file operations are C10's matter",
     ]
     nh = ctx.n(16, 200)
-    jobs = [(ctx.rng.randrange(1 << 30), "f29" if i % 4 == 0 else ("inval" if i % 4 == 1 else "random")) for i in range(nh)]
+    jobs = [(ctx.rng.randrange(1 << 30), "f29" if i % 8 in (0, 4) else ("inval" if i % 8 in (1, 3, 5) else "random")) for i in range(nh)]
     with ThreadPoolExecutor(max_workers=6) as ex:
         recs = list(ex.map(one_history, jobs))
     for rec in recs:
